@@ -1007,3 +1007,4 @@ M('C14', 'format-version-not-a-detail-for-the-differ', NBD, "        '/nbformat_
 M('C14', 'printer-hides-every-other-cell-field-as-detail', PP, "        if starred.startswith('/cells/*/execution_count'):\n            return not self.details", "        if starred.startswith('/cells/*/'):\n            return not self.details", 'R14.19')
 M('C14', 'ignore-consulted-only-for-same-typed-values', GEN, "        if _is_ignored(config, subpath):\n            # (whatever the types of the two values: null -> 2 is a change\n            # of the ignored field like 1 -> 2)\n            continue\n", "", 'R14.7')
 M('C16', 'assertion-on-tool-output', PP, "        if n <= 2:\n            output = stripped\n", "        assert n <= 2, 'unexpected output'\n        output = stripped\n", 'R16.22')
+M('C14', 'unwrapped-key-filter-loses-its-keys', NBD, "                keys = list(inner.ignore_keys) + [\n                    k for k in keys if k not in inner.ignore_keys]\n", "", 'R14.4')
